@@ -430,6 +430,8 @@ def r9_chunk_read_after_callback(ctx, P, R="C02.R9"):
         cbs = [s for s, t in b.calls() if is_cb(t)]
         if not cbs:
             continue
+        if len(b.locals) > 1 and b.locals[1]["ty"].startswith("&mut "):
+            continue    # exclusive borrow of the arena: the callback cannot reach it, the chunk cannot change
         for s, t in b.calls():
             if t["f"].get("name") in ("set_pos", "set_pos_addr") and t["f"].get("local") and any(b.dominates(c, s) or b.can_reach(c, s) for c in cbs):
                 l = flow.op_local(t["args"][0])
